@@ -694,3 +694,136 @@ Section Ip6.
     | _ => 0%nat
     end.
 End Ip6.
+
+(* ------------------------------------------------------------------ *)
+(* The same readers as coroutines: one step per recv_into call.  gevent may
+   switch to another connection's greenlet at every recv_into; [PRecv n k]
+   is a reader suspended in recv_into(buf, n), [k chunk] what it does with
+   the bytes stored.  Every buffer the code allocates per call
+   (bytearray(107), bytearray(length), bytearray(8)) is an argument of the
+   loop below, i.e. local to the suspended reader; the module has no other
+   mutable state.  proof/Proxy_lemmas.v shows that running a coroutine alone
+   is exactly the big-step function above (C18_smallstep_refines), so the
+   definitions mirror the same code. *)
+Inductive proc :=
+| PDone (r : res (addr * addr))
+| PRecv (n : nat) (k : bytes -> proc).
+
+(* the fill loop of read_fill, then [k] on its outcome *)
+Fixpoint p_fill (fuel : nat) (target : nat) (read : bytes) (k : res bytes -> proc) : proc :=
+  if (target <=? length read)%nat then k (Ok read)
+  else match fuel with
+       | O => k OutOfFuel
+       | S f =>
+           PRecv (target - length read)
+                 (fun chunk => match chunk with
+                               | [] => k (Raise (EAssert W_EOF))
+                               | _ :: _ => p_fill f target (read ++ chunk) k
+                               end)
+       end.
+
+(* read_line_loop *)
+Fixpoint p_line_loop (fuel : nat) (read : bytes) (k : res bytes -> proc) : proc :=
+  if (107 <=? length read)%nat then k (Ok read)
+  else match fuel with
+       | O => k OutOfFuel
+       | S f =>
+           PRecv (Nat.min (107 - length read) (if ends_cr read then 1 else 2))
+                 (fun chunk => match chunk with
+                               | [] => k (Raise (EAssert W_EOF))
+                               | _ :: _ =>
+                                   let read' := read ++ chunk in
+                                   if ends_crlf read' then k (Ok read') else p_line_loop f read' k
+                               end)
+       end.
+
+(* read_pp_line *)
+Definition p_read_pp_line (initial : bytes) (k : res bytes -> proc) : proc :=
+  p_fill 8 8 initial (fun r => match r with
+                               | Ok read => p_line_loop 107 read k
+                               | Raise e => k (Raise e)
+                               | OutOfFuel => k OutOfFuel
+                               end).
+
+Definition struct_to_assert (r : res (addr * addr)) : res (addr * addr) :=
+  match r with
+  | Raise EStruct => Raise (EAssert W_DATA)       (* except struct.error *)
+  | _ => r
+  end.
+
+Section SmallStep.
+  Variable pton6 : bytes -> option bytes.
+  Variable ntop6 : bytes -> bytes.
+
+  (* process_pp_v1 *)
+  Definition p_process_v1 (initial : bytes) : proc :=
+    p_read_pp_line initial (fun r => match r with
+                                     | Ok line => PDone (parse_pp_line pton6 ntop6 line)
+                                     | Raise e => PDone (Raise e)
+                                     | OutOfFuel => PDone OutOfFuel
+                                     end).
+
+  (* process_pp_v2 *)
+  Definition p_process_v2 (initial : bytes) : proc :=
+    p_fill 16 16 initial (fun r1 =>
+      match r1 with
+      | Ok data =>
+          match parse_pp_data data with
+          | Ok (cmd, fam, _, addr_len) =>
+              p_fill addr_len addr_len [] (fun r2 =>
+                PDone (struct_to_assert
+                  match r2 with
+                  | Ok addr_data =>
+                      match parse_pp_addresses ntop6 fam addr_data with
+                      | Ok ret => match cmd with CmdLocal => Raise ELocal | CmdProxy => Ok ret end
+                      | Raise e => Raise e
+                      | OutOfFuel => OutOfFuel
+                      end
+                  | Raise e => Raise e
+                  | OutOfFuel => OutOfFuel
+                  end))
+          | Raise e => PDone (struct_to_assert (Raise e))
+          | OutOfFuel => PDone OutOfFuel
+          end
+      | Raise e => PDone (struct_to_assert (Raise e))
+      | OutOfFuel => PDone OutOfFuel
+      end).
+
+  (* ProxyProtocol.handle up to the point where the result is known *)
+  Definition p_process_auto : proc :=
+    p_fill 8 8 [] (fun r =>
+      match r with
+      | Ok initial =>
+          if starts_with PROXY_SP initial then p_process_v1 initial
+          else if beqb initial SIG8 then p_process_v2 initial
+          else PDone (Raise (EAssert W_SIG))
+      | Raise e => PDone (Raise e)
+      | OutOfFuel => PDone OutOfFuel
+      end).
+End SmallStep.
+
+(* one reader alone on its socket *)
+Fixpoint run_proc (p : proc) (s : sock) : res (addr * addr) * sock :=
+  match p with
+  | PDone r => (r, s)
+  | PRecv n k => let '(chunk, s') := recv_into s n in run_proc (k chunk) s'
+  end.
+
+(* connections served concurrently: a connection is a suspended reader and
+   its socket; a schedule names which connection's recv_into returns next *)
+Definition conn := (proc * sock)%type.
+Definition step_conn (c : conn) : conn :=
+  match fst c with
+  | PDone _ => c
+  | PRecv n k => let '(chunk, s') := recv_into (snd c) n in (k chunk, s')
+  end.
+Fixpoint step_nth (i : nat) (cs : list conn) {struct cs} : list conn :=
+  match cs with
+  | [] => []
+  | c :: cs' => match i with O => step_conn c :: cs' | S i' => c :: step_nth i' cs' end
+  end.
+Fixpoint run_conns (picks : list nat) (cs : list conn) : list conn :=
+  match picks with
+  | [] => cs
+  | i :: picks' => run_conns picks' (step_nth i cs)
+  end.
